@@ -235,7 +235,7 @@ func TestProp(t *testing.T) {
 	}
 	vt.Main(t, vt.Spec[peng.Case]{
 		ID:           "C15",
-		Rule:         "rapid-generated concurrent programs built with the race detector: 3-6 threads, 8-40 operations on one manager over 2-4 servers: calls of all 20 kinds with cancellations/deadlines (1 us - 5 ms), slow/early-releasing/helper-releasing/failing handlers, creation of further configurations (WithNodeIDs / WithNodeList / WithNodeMap, WithoutNodes, And) concurrent with readers of Manager.Nodes/NodeIDs/Node/Size and Configuration.Nodes/NodeIDs, server stop+start, Close racing with calls, GOMAXPROCS 2/4/16/default, registration of further (unreachable) nodes, in half of the cases seeded jitter at the statement-level yield points of the instrumented runtime; oracle: no race-detector report with a library frame (runtime or freshly generated stubs) in either stack; non-trivial = at least 2 threads and one of {cancellation, configuration creation concurrent with readers, restart, Close during calls}",
+		Rule:         "rapid-generated concurrent programs built with the race detector: 3-6 threads, 8-40 operations on one manager over 2-4 servers: calls of all 20 kinds with cancellations/deadlines (1 us - 5 ms), slow/early-releasing/helper-releasing/failing handlers, creation of further configurations (WithNodeIDs / WithNodeList / WithNodeMap, WithoutNodes, And, and And on one long-lived union of overlapping configurations shared by all threads) concurrent with readers of Manager.Nodes/NodeIDs/Node/Size and Configuration.Nodes/NodeIDs, server stop+start, Close racing with calls, GOMAXPROCS 2/4/16/default, registration of further (unreachable) nodes, in half of the cases seeded jitter at the statement-level yield points of the instrumented runtime; oracle: no race-detector report with a library frame (runtime or freshly generated stubs) in either stack; non-trivial = at least 2 threads and one of {cancellation, configuration creation concurrent with readers, restart, Close during calls}",
 		Gen:          gen,
 		Run:          run,
 		TrackCurrent: true,
